@@ -467,6 +467,7 @@ def build_reference(e):
         o.add_wavelength(value=w, is_primary=(i == e['prim']))
     return o
 out = []
+LOOKUP_CACHE = {}
 d = tempfile.mkdtemp(prefix='c20_', dir=job['tmp'])
 for ci, c in enumerate(job['cases']):
     fn = os.path.join(d, f'c{ci}.zmx')
@@ -492,6 +493,10 @@ for ci, c in enumerate(job['cases']):
     # lookups the model takes as an oracle: does Material(name[, reference]) find an entry
     rs = {}
     for (name, ref) in c.get('lookups', []):
+        key_ = name + '|' + (ref or '')
+        if key_ in LOOKUP_CACHE:
+            rs[key_] = LOOKUP_CACHE[key_]
+            continue
         try:
             with contextlib.redirect_stdout(io.StringIO()):
                 Material(name, ref.lower() if ref else None)
@@ -500,6 +505,7 @@ for ci, c in enumerate(job['cases']):
             rs[name + '|' + (ref or '')] = False
         except Exception as e:
             rs[name + '|' + (ref or '')] = 'ERR ' + type(e).__name__
+        LOOKUP_CACHE[key_] = rs[key_]
     res['lookups'] = rs
     out.append(res)
 os.rmdir(d)
